@@ -2,28 +2,139 @@
 import json, os
 from .context import Ctx
 from .report import Report
-from . import rules_effects, rules_own, rules_wipe, rules_tables, rules_bits
+from . import rules_effects, rules_own, rules_wipe, rules_tables, rules_bits, rules_api
 
 TB_COMMON = ['clang-14 parsing and -O0 lowering of C11 (+ opt-14 mem2reg)', 'LLVM x86-64 data layout',
              'tools/irfacts.cc (IR -> JSON, no analysis)', 'psa/ir.py CFG, dominators, inclusion-based points-to']
 
 
+def _linit(ctx, rep):
+    """L-INIT: canonical-seed invariant established by every constructor and preserved by crypt"""
+    rules_api.create(ctx, rep)
+    rules_api.decoders(ctx, rep)
+    rules_api.load_api(ctx, rep)
+    rules_bits.packing(ctx, rep, want=('inverse',))
+    rules_bits.storage(ctx, rep)
+    rules_api.crypt(ctx, rep)
+
+
+def c01(ctx, rep):
+    rules_bits.packing(ctx, rep, want=('layout', 'inverse'))
+    rules_api.encode_api(ctx, rep)
+    rules_api.decoders(ctx, rep)
+    rules_tables.normalisation(ctx, rep)
+    rules_tables.search_preconditions(ctx, rep)
+    rules_tables.search_callsite(ctx, rep)
+    rep.assumptions += ['injected NFC/NFKD agree with Unicode normalisation (Python unicodedata is the oracle for the table constants)',
+                        'the comparator bodies implement the reference matching rule (C08)']
+    return ('conjunction of necessary conditions that is also the proof skeleton of the round trip: packing bijection and symmetric coin '
+            '(bitflow), encoder emits words[c_w] in order / decoder unpacks the searched indices (exit summaries), normalisation closure and '
+            'search preconditions of the tables')
+
+
+def c02(ctx, rep):
+    rules_bits.mul2_and_horner(ctx, rep)
+    rules_api.decoders(ctx, rep)
+    rules_api.load_api(ctx, rep)
+    rules_api.create(ctx, rep)
+    rules_api.crypt(ctx, rep)
+    return ('bit-provenance abstract interpretation derives gf_elem_mul2 and gf_poly_eval as GF(2)-linear maps for all inputs at once; '
+            'rank checks on the extracted matrices give single-error and transposition detection; exit summaries show the check is on every '
+            'path that hands out a parsed seed and that create/crypt store a value that makes the form vanish')
+
+
+def c03(ctx, rep):
+    rules_bits.packing(ctx, rep, want=('layout',))
+    rules_api.encode_api(ctx, rep)
+    rules_bits.mul2_and_horner(ctx, rep)
+    rules_tables.registry_and_frozen(ctx, rep)
+    return ('bit-provenance abstract interpretation of the packer and of polyseed_encode compared bit for bit with the published layout; '
+            'check word = GF(2048) evaluation (C02 lemma); separators and composition flags from the constant tables')
+
+
+def c04(ctx, rep):
+    rules_api.keygen(ctx, rep)
+    _linit(ctx, rep)
+    return ('bitflow exit summary of polyseed_keygen: every argument of the single KDF call as a symbolic term over the seed fields and coin; '
+            'L-INIT shows the 13 padding bytes of the password are zero for every seed the library hands out')
+
+
+def c05(ctx, rep):
+    rules_api.encode_api(ctx, rep)
+    rules_api.decoders(ctx, rep)
+    rules_bits.mul2_and_horner(ctx, rep)
+    return ('coin enters only coefficient 1, unmasked, on both sides (bitflow exit summaries of encode and of both decoders); L^1 is '
+            'invertible (matrices extracted from the code), so a non-zero coin difference always changes the evaluation')
+
+
+def c06(ctx, rep):
+    rules_bits.storage(ctx, rep)
+    rules_bits.storage_total(ctx, rep)
+    rules_api.load_api(ctx, rep)
+    return ('bit-provenance abstract interpretation of the storage codec: symbolic image of store; trace-partitioned load whose accept '
+            'partition is the inverse of store with every input bit carried or pinned by a guard; exit summaries of polyseed_load for precedence and cleanup')
+
+
+def c09(ctx, rep):
+    rules_api.decoders(ctx, rep)
+    return 'exit summaries of both decoders (status precedence, sibling agreement)'
+
+
+def c10(ctx, rep):
+    rules_api.features(ctx, rep)
+    rules_api.create(ctx, rep)
+    rules_api.decoders(ctx, rep)
+    rules_api.load_api(ctx, rep)
+    rules_api.crypt(ctx, rep)
+    rules_bits.packing(ctx, rep, want=('layout', 'inverse'))
+    rules_bits.storage(ctx, rep)
+    rules_bits.storage_total(ctx, rep)
+    rules_effects.frame(ctx, rep, cfgs=['NsS'])
+    return ('bitflow on the feature predicates and on polyseed_enable_features partitioned on the three mask bits; exit summaries of the four '
+            'entry points; feature bits carried by packing, storage and crypt (bit identities)')
+
+
+def c12(ctx, rep):
+    rules_api.crypt(ctx, rep)
+    rules_api.features(ctx, rep)
+    rules_bits.storage_total(ctx, rep)
+    return 'bitflow exit summary of polyseed_crypt with the KDF output as 256 symbols; the transformer composed with itself is the identity'
+
+
+def c13(ctx, rep):
+    _linit(ctx, rep)
+    rules_api.features(ctx, rep)
+    rules_api.keygen(ctx, rep)
+    rules_api.encode_api(ctx, rep)
+    rules_bits.storage_total(ctx, rep)
+    rules_effects.frame(ctx, rep, cfgs=ctx.configs('path'))
+    return ('inductive decomposition of the simulation: canonical-seed invariant established by every constructor and preserved by crypt '
+            '(bitflow), per-operation effect summaries, frame condition (effect analysis)')
+
+
 def c15(ctx, rep):
     rules_own.ownership(ctx, rep)
     rules_effects.who_may_call(ctx, rep, cfgs=ctx.configs('path'))
+    rules_api.create(ctx, rep)
+    rules_api.decoders(ctx, rep)
+    rules_api.load_api(ctx, rep)
+    rules_bits.packing(ctx, rep, want=('inverse',))
+    rules_bits.storage(ctx, rep)
     rep.assumptions += ['callers pass to polyseed_free only pointers obtained from the library (caller contract)',
                         'the injected allocator/free behave like malloc/free']
-    return ('ownership typestate over every CFG path of every allocating function; release-function shape; '
-            'who-may-allocate/release over the whole call graph')
+    return ('ownership typestate over every CFG path of every allocating function; release-function shape; who-may-allocate/release over '
+            'the whole call graph; bitflow with the heap block UNINIT shows fresh memory is never assumed zero')
 
 
 def c16(ctx, rep):
     rules_wipe.wipes(ctx, rep)
     rules_own.ownership(ctx, rep)
+    rules_api.decoders(ctx, rep)
+    rules_api.load_api(ctx, rep)
     rep.assumptions += ['residues in registers, spill slots and scalar locals are below the IR level analysed',
                         'dep:memzero is an opaque external call, hence not elidable by the optimiser']
     return ('secret-taint summaries over the call graph select the secret-bearing aggregate locals; must-pass-through '
-            '(CFG reachability with wipe calls removed) from each tainting instruction to every return')
+            '(CFG reachability with wipe calls removed) from each tainting instruction to every return; exit summaries show released blocks are all-zero')
 
 
 def c20(ctx, rep):
@@ -38,7 +149,10 @@ def c20(ctx, rep):
 def c18(ctx, rep):
     rules_effects.who_may_call(ctx, rep)
     rules_effects.frame(ctx, rep, cfgs=ctx.configs('path'))
-    return 'who-may-call allow-list over all configurations; dependency table written only by polyseed_inject'
+    rules_api.inject(ctx, rep)
+    rules_api.create(ctx, rep)
+    return ('who-may-call allow-list over all configurations; dependency table written only by polyseed_inject; bitflow exit summaries of '
+            'polyseed_inject (8 NULL patterns) and polyseed_create (CSPRNG output as symbols)')
 
 
 def c07(ctx, rep):
@@ -54,42 +168,23 @@ def c07(ctx, rep):
 
 def c17(ctx, rep):
     rules_tables.phrase_size(ctx, rep)
+    rules_api.encode_api(ctx, rep)
     return ('per-position maxima of word lengths (NFKD and NFC) over all 2048 admissible indices, summed over 16 positions + 15 '
-            'separators, compared with the compiled sizeof(polyseed_str)')
-
-
-def c02(ctx, rep):
-    rules_bits.mul2_and_horner(ctx, rep)
-    return ('bit-provenance abstract interpretation derives gf_elem_mul2 and gf_poly_eval as GF(2)-linear maps for all inputs at once; '
-            'rank checks on the extracted matrices give single-error and transposition detection')
-
-
-def c03(ctx, rep):
-    rules_bits.packing(ctx, rep, want=('layout',))
-    rules_tables.registry_and_frozen(ctx, rep)
-    return ('bit-provenance abstract interpretation of the packer compared bit for bit with the published layout; separators and '
-            'composition flags from the constant tables')
-
-
-def c06(ctx, rep):
-    rules_bits.storage(ctx, rep)
-    return ('bit-provenance abstract interpretation of the storage codec: symbolic image of store; trace-partitioned load whose accept '
-            'partition is shown to be the inverse of store with every input bit either carried or pinned by a guard')
-
-
-def c01(ctx, rep):
-    rules_bits.packing(ctx, rep, want=('inverse',))
-    rules_tables.normalisation(ctx, rep)
-    rules_tables.search_preconditions(ctx, rep)
-    return 'conjunction of necessary conditions: packing bijection (bitflow), normalisation closure and search preconditions of the tables'
+            'separators, compared with the compiled sizeof(polyseed_str); exit summary of encode ties the sum to the 16+15 writer calls')
 
 
 REGISTRY = {
+    'C05': dict(fn=c05, level='proof', tb=TB_COMMON + ['psa/bitflow.py', 'psa/harness.py summaries']),
+    'C09': dict(fn=c09, level='other', tb=TB_COMMON + ['psa/bitflow.py', 'psa/harness.py summaries']),
+    'C10': dict(fn=c10, level='proof', tb=TB_COMMON + ['psa/bitflow.py']),
+    'C12': dict(fn=c12, level='proof', tb=TB_COMMON + ['psa/bitflow.py', 'summaries of injected functions in psa/harness.py']),
+    'C13': dict(fn=c13, level='other', tb=TB_COMMON + ['psa/bitflow.py']),
     'C15': dict(fn=c15, level='proof', tb=TB_COMMON + ['psa/paths.py path walker (phi resolution, constant folding)']),
     'C16': dict(fn=c16, level='proof', tb=TB_COMMON + ['psa/taint.py propagation summaries for injected functions']),
     'C01': dict(fn=c01, level='other', tb=TB_COMMON + ['psa/bitflow.py transfer functions', 'Python unicodedata']),
     'C02': dict(fn=c02, level='proof', tb=TB_COMMON + ['psa/bitflow.py transfer functions and affine merge', 'reference polynomial x^11+x^2+1']),
     'C03': dict(fn=c03, level='proof', tb=TB_COMMON + ['psa/bitflow.py transfer functions', 'published layout transcribed in rules_bits.ref_layout']),
+    'C04': dict(fn=c04, level='proof', tb=TB_COMMON + ['psa/bitflow.py', 'summaries of injected functions in psa/harness.py']),
     'C06': dict(fn=c06, level='proof', tb=TB_COMMON + ['psa/bitflow.py transfer functions, guard refinement by GF(2) elimination']),
     'C07': dict(fn=c07, level='other', tb=TB_COMMON + ['Python unicodedata', 'ref/languages.json + ref/words (transcribed from the pinned release)']),
     'C17': dict(fn=c17, level='proof', tb=TB_COMMON + ['Python unicodedata']),
